@@ -501,3 +501,27 @@ func H_C15_fresh_directory() {
 	verifAssert(verifFDContent(s.f) == "<e>\n", "C15.fresh-directory.event-written")
 	verifReach("C15.fresh-directory.end")
 }
+
+// file names: a rotated file is the configured name with the time stamp inserted before the extension — the part after the
+// LAST dot (".log" when the name has none) — so names with several dots keep their own name space
+func H_C15_file_names() {
+	fsInit()
+	names := [4]string{"audit.log", "app.audit.log", "audit", "a.b.c.log"}
+	bases := [4]string{"audit", "app.audit", "audit", "a.b.c"}
+	exts := [4]string{".log", ".log", ".log", ".log"}
+	k := symLen(0, 3)
+	s := &FileSink{Path: fsDir, FileName: names[k], Format: "custom", MaxBytes: 1, TimestampOnlyOnRotate: true}
+	ctx := context.Background()
+	_, e1 := s.Process(ctx, &Event{Type: "t", Formatted: map[string][]byte{"custom": []byte("<one>\n")}})
+	_, e2 := s.Process(ctx, &Event{Type: "t", Formatted: map[string][]byte{"custom": []byte("<two>\n")}})
+	verifAssert(e1 == nil && e2 == nil, "C15.file-names.writes-succeed")
+	rotated, _ := filepath.Glob(fsDir + "/" + bases[k] + "-*" + exts[k])
+	verifAssert(len(rotated) == 1, "C15.file-names.rotated-file-is-name-stamp-extension")
+	if len(rotated) == 1 {
+		c, _ := readFile(rotated[0])
+		verifAssert(c == "<one>\n", "C15.file-names.rotated-file-holds-the-first-event")
+	}
+	c, ok := readFile(fsDir + "/" + names[k])
+	verifAssert(ok && c == "<two>\n", "C15.file-names.active-file-keeps-the-configured-name")
+	verifReach("C15.file-names.end")
+}
